@@ -63,14 +63,20 @@ ClosureClause(e, x) ==
     ELSE IF e.cls = "ok" /\ (Adv(x) = "any" \/ e.obj = Adv(x)) THEN "ok"
     ELSE IF Why(P, e.req) # "none" THEN "Closure_" \o Why(P, e.req)
     ELSE IF x.t.form = "url" /\ ~StartsWith(x.t.href, "/") THEN "Closure_UrlNameAsReference"
-    ELSE IF e.cls = "ok" THEN "Closure_WrongKind"
+    ELSE IF e.cls = "ok" THEN (LET r == Parse(LastRq(e)) IN          \* explained by the model: a *.gophermap file
+                               IF r.kind = "serve" /\ IsMapFile(C, r.sel, HL) THEN "Closure_MapFileAsDocument"
+                               ELSE "Closure_WrongKind")
     ELSE "Closure"
 
 \* design level -------------------------------------------------------------------------------
 Predicted(rq) == LET r == Parse(rq) IN
                  IF r.cls = OwnClass(P) /\ r.kind = "serve" THEN Serve(C, r.sel, HL) ELSE NotFound
-ResponseAsModel(e) == LET pr == Predicted(LastRq(e)) IN      \* no prediction when another class answers
-                      Why(P, LastRq(e)) # "none" \/ ((e.cls = "ok") = pr.ok /\ (e.cls = "ok" => e.obj = pr.obj))
+\* no prediction when another class answers, nor for a *.gophermap file (announced with the MIME type of a text
+\* file, so HTTP sends a listing under Content-Type text/plain: part of the named deviation MapFileAsDocument)
+ResponseAsModel(e) == LET pr == Predicted(LastRq(e)) IN
+                      \/ Why(P, LastRq(e)) # "none"
+                      \/ (Parse(LastRq(e)).kind = "serve" /\ IsMapFile(C, Parse(LastRq(e)).sel, HL) /\ "mapfile" \notin Fixes)
+                      \/ ((e.cls = "ok") = pr.ok /\ (e.cls = "ok" => e.obj = pr.obj))
 ListingAsModel(e) ==
     LET r == Parse(e.req) IN
     IF r.cls # OwnClass(P) \/ r.kind # "serve" \/ r.sel \notin Dirs(C, HL) THEN FALSE
